@@ -13,6 +13,10 @@ package main
 import (
 	"bytes"
 	"context"
+	"crypto/hmac"
+	"crypto/sha256"
+	"encoding/base64"
+	"encoding/hex"
 	"errors"
 	"fmt"
 	"io"
@@ -284,9 +288,25 @@ func (d *faultDB) count(table string) int {
 const faultHeader = "X-Verif-Fault"
 
 // webhookServer answers allow unless the fault header asks otherwise.
-func webhookServer() *httptest.Server {
+// webhookServer answers like a careful webhook: it checks the request signature (HMAC-SHA256 of
+// the body under the webhook's secret, X-Smallstep-Signature) when it knows the secret, and the
+// Authorization header when one is expected; a request that fails these checks gets a 401.
+func webhookServer(secretB64, wantAuth string) *httptest.Server {
+	secret, secretErr := base64.StdEncoding.DecodeString(secretB64)
 	return httptest.NewServer(http.HandlerFunc(func(w http.ResponseWriter, r *http.Request) {
-		io.Copy(io.Discard, r.Body)
+		body, _ := io.ReadAll(r.Body)
+		if secretB64 != "" && secretErr == nil {
+			mac := hmac.New(sha256.New, secret)
+			mac.Write(body)
+			if sig, err := hex.DecodeString(r.Header.Get("X-Smallstep-Signature")); err != nil || !hmac.Equal(sig, mac.Sum(nil)) {
+				w.WriteHeader(http.StatusUnauthorized)
+				return
+			}
+		}
+		if wantAuth != "" && r.Header.Get("Authorization") != wantAuth {
+			w.WriteHeader(http.StatusUnauthorized)
+			return
+		}
 		switch r.Header.Get(faultHeader) {
 		case "deny":
 			w.Write([]byte(`{"allow":false}`))
